@@ -4,6 +4,9 @@ import "fmt"
 
 var txnKeys = []string{"x", "x@1"} // the second user key contains the version separator
 
+// longTxnKeys: two 100-byte keys that differ only in their last bytes, with 3 000-byte values (see xKey)
+var longTxnKeys = []string{"x#100", "x@1#100"}
+
 var (
 	cfgTxnMem    = dbCfg{Mem: memHuge, Imm: 1, Block: 4096, L0: 2, Ratio: 2, SL: 2}
 	cfgTxnRotate = dbCfg{Mem: 1, Imm: 1, Block: 1, L0: 1, Ratio: 1, SL: 1}
@@ -192,32 +195,42 @@ func apiUnits(tier string, oracles ...txnOracle) []Unit {
 		eager   bool
 		settled bool
 		reopen  bool
+		keys    []string
 	}
 	var plans []plan
 	if tier == "quick" {
 		plans = []plan{
-			{"api/2txn/ops<=2/mem-only", cfgTxnMem, 2, 2, true, false, false, false},
-			{"api/3txn/ops<=1/mem-only", cfgTxnMem, 3, 1, false, false, false, false},
-			{"api/2txn/ops<=1/rotate-always/eager", cfgTxnRotate, 2, 1, false, true, false, false},
-			{"api/2txn/ops<=2/mem-only/settled", cfgTxnMem, 2, 2, false, false, true, false},
-			{"api/2txn/ops<=2/mem-only/reopened", cfgTxnMem, 2, 2, false, false, false, true},
+			{"api/2txn/ops<=2/mem-only", cfgTxnMem, 2, 2, true, false, false, false, nil},
+			{"api/3txn/ops<=1/mem-only", cfgTxnMem, 3, 1, false, false, false, false, nil},
+			{"api/2txn/ops<=1/rotate-always/eager", cfgTxnRotate, 2, 1, false, true, false, false, nil},
+			{"api/2txn/ops<=2/mem-only/settled", cfgTxnMem, 2, 2, false, false, true, false, nil},
+			{"api/2txn/ops<=2/mem-only/reopened", cfgTxnMem, 2, 2, false, false, false, true, nil},
+			{"api/2txn/ops<=2/mem-only/long-keys", cfgTxnMem, 2, 2, false, false, false, false, longTxnKeys},
 		}
 	} else {
 		plans = []plan{
-			{"api/2txn/ops<=3/mem-only", cfgTxnMem, 2, 3, false, false, false, false},
-			{"api/2txn/ops<=2/mem-only", cfgTxnMem, 2, 2, true, false, false, false},
-			{"api/3txn/ops<=1/mem-only", cfgTxnMem, 3, 1, true, false, false, false},
-			{"api/2txn/ops<=2/rotate-always/eager", cfgTxnRotate, 2, 2, false, true, false, false},
-			{"api/3txn/ops<=1/rotate-always/eager", cfgTxnRotate, 3, 1, false, true, false, false},
-			{"api/2txn/ops<=2/unbuffered", cfgTxnUnbuf, 2, 2, false, false, false, false},
-			{"api/2txn/ops<=2/mem-only/settled", cfgTxnMem, 2, 2, true, false, true, false},
-			{"api/3txn/ops<=1/mem-only/settled", cfgTxnMem, 3, 1, false, false, true, false},
-			{"api/2txn/ops<=2/mem-only/reopened", cfgTxnMem, 2, 2, true, false, false, true},
-			{"api/3txn/ops<=1/mem-only/reopened", cfgTxnMem, 3, 1, false, false, false, true},
+			{"api/2txn/ops<=3/mem-only", cfgTxnMem, 2, 3, false, false, false, false, nil},
+			{"api/2txn/ops<=2/mem-only", cfgTxnMem, 2, 2, true, false, false, false, nil},
+			{"api/3txn/ops<=1/mem-only", cfgTxnMem, 3, 1, true, false, false, false, nil},
+			{"api/2txn/ops<=2/rotate-always/eager", cfgTxnRotate, 2, 2, false, true, false, false, nil},
+			{"api/3txn/ops<=1/rotate-always/eager", cfgTxnRotate, 3, 1, false, true, false, false, nil},
+			{"api/2txn/ops<=2/unbuffered", cfgTxnUnbuf, 2, 2, false, false, false, false, nil},
+			{"api/2txn/ops<=2/mem-only/settled", cfgTxnMem, 2, 2, true, false, true, false, nil},
+			{"api/3txn/ops<=1/mem-only/settled", cfgTxnMem, 3, 1, false, false, true, false, nil},
+			{"api/2txn/ops<=2/mem-only/reopened", cfgTxnMem, 2, 2, true, false, false, true, nil},
+			{"api/3txn/ops<=1/mem-only/reopened", cfgTxnMem, 3, 1, false, false, false, true, nil},
+			{"api/2txn/ops<=2/mem-only/long-keys", cfgTxnMem, 2, 2, true, false, false, false, longTxnKeys},
+			{"api/2txn/ops<=2/rotate-always/eager/long-keys", cfgTxnRotate, 2, 2, false, true, false, false, longTxnKeys},
 		}
 	}
 	for _, pl := range plans {
-		progs := apiPrograms(txnKeys, pl.maxOps, pl.disc)
+		keys := txnKeys
+		init := init
+		if pl.keys != nil {
+			keys = pl.keys
+			init = []txProg{{Update: true, Ops: []txOp{{Op: "S", K: keys[0], V: "i0"}}, End: "C"}}
+		}
+		progs := apiPrograms(keys, pl.maxOps, pl.disc)
 		// one unit per first program
 		for fi := range progs {
 			for si := range progs {
@@ -250,7 +263,7 @@ func apiUnits(tier string, oracles ...txnOracle) []Unit {
 							for i, x := range idx {
 								tuple[i] = progs[x]
 							}
-							exploreAPI(c, pl.cfg, init, tuple, pl.eager, pl.settled, pl.reopen, oracles...)
+							exploreAPI(c, pl.cfg, init, tuple, pl.keys, pl.eager, pl.settled, pl.reopen, oracles...)
 							return
 						}
 						// transactions other than the first are interchangeable: non-decreasing indices
